@@ -226,6 +226,23 @@ CLAIMED = {
         note=('Known finding F25 (same-stem RP66V1 inputs write the same LAS paths) is judged in its own scenario and recognised only when every '
               'difference is confined to the colliding files.  Benign damage may still convert.'),
         technique='TLA+ spec + TLC model checking of all schedules (safety + liveness); TLC trace validation of real pool/sequential runs; fault enumeration'),
+    'C19': dict(
+        category='model_checking', design='3/C19',
+        text=('TLC model checks PlotWrap.tla: the wrap/position arithmetic on an integer lattice (InTrack, Unwrap, both scale directions) and '
+              'the polyline machine of Plot._plotSingleOutput / _retInterpolateWrapPoints / _filterCrossLineList over every sample sequence of '
+              '<= 4 (5) samples from values on 7 wraps and absent samples, for five back-up modes: every emitted point lies in the track and in '
+              'the x interval of its step, crossing lines per step are bounded, nothing is drawn for or across absent samples; the variant that '
+              'only flushes at an absent sample is refuted.  The real LineTransLin / LineTransLog10 are replayed on the lattice and at extreme '
+              'magnitudes (1e+-300, 5e-324, 1.7e308, non-positive on log).  Real plots: generated LIS log passes (constant, ramps over many '
+              'wraps, spikes, huge, tiny, negative on log scales, absent runs) are plotted by PlotReadLIS with generated FILM/PRES tables (five '
+              'tracks, scales in both directions, linear and logarithmic, every back-up mode) and by PlotReadXML with the built-in formats; '
+              'wrapPos calls, points handed to PlotRoll.polyLinePt and polyline flushes are recorded from the harness process and every curve is '
+              'one trace validated by TLC against PlotWrapTrace.tla (scale position computed from the inputs only, quantised); the SVG must be '
+              'well-formed, its polylines exactly the recorded points, inside the view box and between the plot margins.'),
+        note=('Partial: TLC covers the lattice and quantised traces; floating-point accuracy of wrapPos is bounded by the harness tolerance '
+              '(1e-9 widths linear, 1e-7 logarithmic).  LAS input cannot be plotted at all in this version (known finding F27), so the plot '
+              'binding is on LIS input only; F14 (position beyond double range) is known.'),
+        technique='TLA+ spec + TLC model checking of the polyline machine; TLC trace validation of recorded real plots; lattice replay'),
 }
 
 NOT_YET = 'check not built yet in this session; planned per DESIGN.md section 3'
